@@ -56,9 +56,9 @@ TEXT = {
  "C05": ("C05_callback_mutex: in every state reachable by ANY label sequence of the node.rs model (program counters of the network and signal threads, the callback mutex, the running flag; any interleaving, any poll batches and signals, callbacks of any duration, stop() anywhere, for_each and for_each_async) at most one thread is between callback entry and exit. Trace inclusion: real nodes run with hook trace points (lock scope, running checks, cache push/pop, poll / signal-wait) and the harness's own callback records; every recorded trace must be a run of the model (extracted acceptor), and an in-callback flag checks overlap directly.",
          "Trusted: Coq kernel; Mutex and thread join as oracles; Relaxed flag modelled SC; hook placement; harness.",
          "Coq invariant proof over a program-counter LTS + trace inclusion of instrumented real runs", "DESIGN.md 4 (C05)"),
- "C09": ("C09_stop_in_callback_final: in every accepted run no callback entry follows a stop() issued inside a callback (either thread, either mode, whatever is queued, polled or cached); C09_stop_before_start: if the node is stopped when the listener call begins the callback is never invoked. Real nodes: stop at every event index (network events and signals), before start, from an unrelated thread, in for_each / for_each_async / enqueue; the listener must return within 1.5 s; traces checked for inclusion in the model.",
-         "Trusted: as C05; bounded-time return is measured.",
-         "Coq invariant proof over a program-counter LTS + trace inclusion + scripted stop points on real nodes", "DESIGN.md 4 (C09)"),
+ "C09": ("C09_stop_in_callback_final: in every accepted run no callback entry follows a stop() issued inside a callback (either thread, either mode, whatever is queued, polled or cached); C09_stop_before_start: if the node is stopped when the listener call begins the callback is never invoked. The listener returns: C09_stop_terminates (from any reachable stopped state every sequence of listener-thread actions is bounded by a constant budget plus 3 steps per event of the at most one poll still to come) and C09_stopped_not_stuck (until both threads are through some action is enabled), under C09_gen_obligation re-read from node.rs on every run (every wait bounded by SAMPLING_TIMEOUT, at the head of a loop that re-reads the flag; stop() clears the flag). Real nodes: stop at every event index (network events and signals), with the other thread queued on the callback lock, before start, from an unrelated thread, in for_each / for_each_async / enqueue; the listener must return within 1.5 s; traces checked for inclusion in the model.",
+         "Trusted: as C05; that a user callback returns is assumed; wall-clock return time is measured.",
+         "Coq invariant and termination-measure proofs over a program-counter LTS + trace inclusion + scripted stop points on real nodes", "DESIGN.md 4 (C09)"),
  "C15": ("C15_cached_first_in_order: in every reachable state the network events handed to the callback are a prefix of the events the processor emitted (cache thread first, then the same processor in the listener thread), and while nothing was dropped by a stop, received ++ waiting = emitted. Real nodes: numbered datagrams sent 70 ms or more before the listener call and after it, three listener modes, must arrive first, complete and in order.",
          "Trusted: as C05.",
          "Coq invariant proof (prefix / conservation) + trace inclusion + real-node order checks", "DESIGN.md 4 (C15)"),
